@@ -1069,6 +1069,7 @@ seq_t dtw_warping_paths_ndim(seq_t *wps,
     idx_t ec = settings->psi_2b;  // relaxed cells of the virtual first row are not above max_dist
     idx_t ec_next;
     bool smaller_found;
+    idx_t final_wpsi = 0;
 
     DTWWps p = dtw_wps_parts(l1, l2, settings);
     if (settings->use_pruning || settings->only_ub) {
@@ -1139,6 +1140,8 @@ seq_t dtw_warping_paths_ndim(seq_t *wps,
         }
         smaller_found = false;
         ec_next = ri;
+        // Index of the last cell of this row (also valid if the loop below is left early)
+        final_wpsi = ri_width + wpsi + (max_ci - ci) - 1;
         // A region assumes wps has the same column indices in the previous row
         for (; ci<max_ci; ci++) {
             ci_idx = ci * ndim;
@@ -1189,6 +1192,8 @@ seq_t dtw_warping_paths_ndim(seq_t *wps,
         }
         smaller_found = false;
         ec_next = ri;
+        // Index of the last cell of this row (also valid if the loop below is left early)
+        final_wpsi = ri_width + wpsi + (max_ci - ci) - 1;
         for (; ci<max_ci; ci++) {
             ci_idx = ci * ndim;
             d = 0;
@@ -1239,6 +1244,8 @@ seq_t dtw_warping_paths_ndim(seq_t *wps,
         }
         smaller_found = false;
         ec_next = ri;
+        // Index of the last cell of this row (also valid if the loop below is left early)
+        final_wpsi = ri_width + wpsi + (max_ci - ci) - 1;
         for (; ci<max_ci; ci++) {
             ci_idx = ci * ndim;
             d = 0;
@@ -1299,6 +1306,8 @@ seq_t dtw_warping_paths_ndim(seq_t *wps,
         }
         smaller_found = false;
         ec_next = ri;
+        // Index of the last cell of this row (also valid if the loop below is left early)
+        final_wpsi = ri_width + wpsi + (l2 - ci) - 1;
         for (; ci<l2; ci++) {
             ci_idx = ci * ndim;
             d = 0;
@@ -1341,7 +1350,6 @@ seq_t dtw_warping_paths_ndim(seq_t *wps,
 //    dtw_print_wps(wps, l1, l2, settings);
 
     seq_t rvalue = 0;
-    idx_t final_wpsi = ri_widthp + wpsi - 1;
     // Deal with Psi-relaxation
     if (return_dtw && settings->psi_1e == 0 && settings->psi_2e == 0) {
         rvalue = wps[final_wpsi];
@@ -1449,6 +1457,7 @@ seq_t dtw_warping_paths_ndim_euclidean(seq_t *wps,
     idx_t ec = settings->psi_2b;  // relaxed cells of the virtual first row are not above max_dist
     idx_t ec_next;
     bool smaller_found;
+    idx_t final_wpsi = 0;
 
     DTWWps p = dtw_wps_parts(l1, l2, settings);
     if (settings->use_pruning || settings->only_ub) {
@@ -1517,6 +1526,8 @@ seq_t dtw_warping_paths_ndim_euclidean(seq_t *wps,
         }
         smaller_found = false;
         ec_next = ri;
+        // Index of the last cell of this row (also valid if the loop below is left early)
+        final_wpsi = ri_width + wpsi + (max_ci - ci) - 1;
         // A region assumes wps has the same column indices in the previous row
         for (; ci<max_ci; ci++) {
             ci_idx = ci * ndim;
@@ -1568,6 +1579,8 @@ seq_t dtw_warping_paths_ndim_euclidean(seq_t *wps,
         }
         smaller_found = false;
         ec_next = ri;
+        // Index of the last cell of this row (also valid if the loop below is left early)
+        final_wpsi = ri_width + wpsi + (max_ci - ci) - 1;
         for (; ci<max_ci; ci++) {
             ci_idx = ci * ndim;
             d = 0;
@@ -1619,6 +1632,8 @@ seq_t dtw_warping_paths_ndim_euclidean(seq_t *wps,
         }
         smaller_found = false;
         ec_next = ri;
+        // Index of the last cell of this row (also valid if the loop below is left early)
+        final_wpsi = ri_width + wpsi + (max_ci - ci) - 1;
         for (; ci<max_ci; ci++) {
             ci_idx = ci * ndim;
             d = 0;
@@ -1680,6 +1695,8 @@ seq_t dtw_warping_paths_ndim_euclidean(seq_t *wps,
         }
         smaller_found = false;
         ec_next = ri;
+        // Index of the last cell of this row (also valid if the loop below is left early)
+        final_wpsi = ri_width + wpsi + (l2 - ci) - 1;
         for (; ci<l2; ci++) {
             ci_idx = ci * ndim;
             d = 0;
@@ -1723,7 +1740,6 @@ seq_t dtw_warping_paths_ndim_euclidean(seq_t *wps,
 //    dtw_print_wps(wps, l1, l2, settings);
 
     seq_t rvalue = 0;
-    idx_t final_wpsi = ri_widthp + wpsi - 1;
     // Deal with Psi-relaxation
     if (return_dtw && settings->psi_1e == 0 && settings->psi_2e == 0) {
         rvalue = wps[final_wpsi];
